@@ -540,7 +540,11 @@ def dual_rules(n_in=None, n_rle=None):
         r.append((r"normalize_block_hash_in_place_internal", n_in))
         r.append((r"verify_block_hash_internal", n_in))
     if n_rle is not None:
+        # the run check inside is_valid_rle_block scans exactly MAX_SEQUENCE_SIZE - 1 = 2 symbols
+        r.append((r"Iterator>::any::<.closure@" + DUAL_SRC, 4))
         r.append((r"expand_block_hash_using_rle|is_valid_rle_block_for_block_hash", n_rle))
+        if n_in is not None:
+            r.append((r"Iterator>::all::<.closure@" + DUAL_SRC, n_in))
     return r
 
 
@@ -669,6 +673,7 @@ for S in ("short_norm", "short_raw", "long_norm", "long_raw"):
 for nm, tiers in [("c11_constructors_ok_short_norm_m12", ("quick", "thorough")), ("c11_constructors_ok_long_raw_m12", ("thorough",)),
                   ("c11_constructors_ok_short_raw_full", ("thorough",)), ("c11_constructors_ok_long_norm_full", ("thorough",))]:
     K(nm, "C11", M_HASH, cfg="release", tiers=tiers, cap=(900, 2400), cost=400, mem=12, shape="BMC",
+      unwindset=alg_rules(n_verify=14) if nm.endswith("m12") else None,
       bound="in-contract constructors rebuild exactly the given valid content (%s)" % nm.split("_")[-1],
       enc=["new_from_internals_raw", "init_from_internals_raw", "new_from_internals_near_raw", "new_from_internals", "new", "default"],
       assumptions=["arguments satisfy the documented contract (a valid object's fields)"])
@@ -679,6 +684,7 @@ for nm in ("c11_ooc_new_from_internals_short_norm", "c11_ooc_new_from_internals_
         K(nm + ("" if cfg == "release" else "_dbg"), "C11", M_HASH, fn=nm, cfg=cfg,
           tiers=("quick", "thorough") if ("short" in nm) else ("thorough",),
           cap=(600, 1800), cost=150, mem=12, only_tag="VERIF_TAG", shape="BMC",
+          unwindset=alg_rules(n_verify=8) if "internals_raw" not in nm else None,
           bound="ANY arguments (<= 6 symbols per block hash, any block size): if the constructor returns, the object is valid",
           enc=[nm.replace("c11_ooc_", "").rsplit("_", 2)[0]],
           assumptions=["panics of the constructor are the documented behaviour (ignored); only 'returned => valid' is read",
@@ -1005,3 +1011,28 @@ for cfg in ("unchecked", "unchecked-release", "unsafe", "unsafe-release"):
             "unchecked constructors == checked ones on valid arguments, block hashes <= 8",
             ["new_from_internals_raw_unchecked", "init_from_internals_raw_unchecked", "new_from_internals_near_raw_unchecked",
              "new_from_internals_unchecked"])
+
+# capacity boundary of the collapsing parser in the quick tier (structured prefix, free tail)
+for (nm, N, T, tiers, cap, cost) in [("c04_bh32_t40_norm_tail", 32, 40, ("quick", "thorough"), (600, 1200), 150),
+                                     ("c04_bh64_t72_norm_tail", 64, 72, ("quick", "thorough"), (900, 1800), 300)]:
+    K(nm, "C04", M_ALG, tiers=tiers, cap=cap, cost=cost, mem=12, unwindset=alg_rules(n_text=T + 2), shape="BMC",
+      bound="block hash field kernel ::<%d>, collapsing: %d run-free symbols followed by every byte string of <= 11 bytes "
+            "(capacity reached and exceeded, raw and collapsed)" % (N, N - 3),
+      enc=["parse_block_hash_from_bytes::<_,%d>" % N])
+# routes that other properties' queries already decide, listed where the property names them
+K("c06_dual_route_kernel32_b6", "C06", M_DUAL, fn="c07_kernel32_b6", cfg="release", tiers=("quick",), cap=(900, 0), cost=300, mem=12,
+  unwindset=dual_rules(n_in=7, n_rle=9), shape="BMC",
+  bound="normalized part produced by the dual route (compress ::<32,8>) == spec_norm, raw length <= 6",
+  enc=["compress_block_hash_with_rle::<32,8>"], assumptions=[ASSUME_SYM])
+K("c06_dual_route_kernel64_b6", "C06", M_DUAL, fn="c07_kernel64_b6", cfg="release", tiers=("quick",), cap=(900, 0), cost=300, mem=12,
+  unwindset=dual_rules(n_in=7, n_rle=17), shape="BMC",
+  bound="normalized part produced by the dual route (compress ::<64,16>) == spec_norm, raw length <= 6",
+  enc=["compress_block_hash_with_rle::<64,16>"], assumptions=[ASSUME_SYM])
+K("c06_dual_route_kernel32_b12", "C06", M_DUAL, fn="c07_kernel32_b12", cfg="release", tiers=("thorough",), cap=(0, 2400), cost=900, mem=12,
+  unwindset=dual_rules(n_in=13, n_rle=9), shape="BMC",
+  bound="normalized part produced by the dual route (compress ::<32,8>) == spec_norm, raw length <= 12",
+  enc=["compress_block_hash_with_rle::<32,8>"], assumptions=[ASSUME_SYM])
+K("c02_reused_target_init_m6", "C02", M_CMP, fn="c17_target_init_short_m6", cfg="release", cap=(900, 2400), cost=400, mem=14,
+  unwindset=pa_rules(n_init=7) + [("@memcmp.0", 520)], shape="inductive step",
+  bound="the reusable comparison target: init_from on an ARBITRARY (previously used) target == a fresh target, block hashes <= 6",
+  enc=["FuzzyHashCompareTarget::init_from", "From<&FuzzyHashData>"], assumptions=[ASSUME_SYM])
